@@ -481,31 +481,31 @@ func runR4(c *Ctx) {
 			}
 			cmp := cmps[0]
 			negated := map[token.Token]token.Token{token.EQL: token.NEQ, token.NEQ: token.EQL, token.LSS: token.GEQ, token.GEQ: token.LSS, token.GTR: token.LEQ, token.LEQ: token.GTR}
-			if cmp.Op != op && cmp.Op != negated[op] { // the complementary operator under a negation is decided by R79's worlds
-
-				c.bad(key, p.instrPos(cmp), fmt.Sprintf("table key %q is bound to kernel %s which compares with %q", e.key, fname(e.fn), cmp.Op))
-				continue
-			}
+			mirror := map[token.Token]token.Token{token.EQL: token.EQL, token.NEQ: token.NEQ, token.LSS: token.GTR, token.GTR: token.LSS, token.LEQ: token.GEQ, token.GEQ: token.LEQ}
 			lx := f.posReads(cmp.X, res)
 			ly := f.posReads(cmp.Y, res)
 			colcol := countStorageParams(f, e.fn) >= 2 || strings.HasSuffix(e.table, "2")
+			// which operand is the cell: `comp > cell` is `cell < comp`, and in a column-column kernel the cell of the
+			// argument column may stand on the left as long as the operator is the mirrored one
+			eff := cmp.Op
 			switch {
-			case len(lx) == 0:
-				c.bad(key, p.instrPos(cmp), "the left operand of the comparison is not the cell: operands are swapped (`c < cell` computes the mirrored comparator)")
+			case !colcol && len(lx) == 0 && len(ly) != 0:
+				eff = mirror[cmp.Op]
+			case !colcol && len(lx) == 0:
+				c.bad(key, p.instrPos(cmp), "neither operand of the comparison is the cell")
 				continue
 			case !colcol && len(ly) != 0:
 				c.bad(key, p.instrPos(cmp), "both operands read column storage in a column-constant kernel")
 				continue
-			case colcol && len(ly) == 0:
+			case colcol && (len(ly) == 0 || len(lx) == 0):
 				c.bad(key, p.instrPos(cmp), "column-column kernel compares the cell with something that is not the other column's cell")
 				continue
+			case colcol && !operandFromParamOrder(f, e.fn, cmp):
+				eff = mirror[cmp.Op]
 			}
-			if colcol {
-				// left operand from the first column parameter, right from the second
-				if !operandFromParamOrder(f, e.fn, cmp) {
-					c.bad(key, p.instrPos(cmp), "column-column kernel compares the argument column's cell on the left (operands swapped)")
-					continue
-				}
+			if eff != op && eff != negated[op] { // the complementary operator under a negation is decided by R79's worlds
+				c.bad(key, p.instrPos(cmp), fmt.Sprintf("table key %q is bound to kernel %s which compares cell %s comparatee", e.key, fname(e.fn), eff))
+				continue
 			}
 			if perKey[e.key] == nil {
 				perKey[e.key] = map[string]bool{}
